@@ -203,9 +203,60 @@ def pair_adapters_oracle(ctx, case, real):
             ctx.count("pair-adapters-checked")
 
 
+def rank_case(ctx):
+    """--pair-adapters with 2-4 ranks; several ranks may share a sequence on one side and differ only in name and search parameters,
+    so which *rank* trimmed each mate is visible (read names get the adapter name as suffix) and decides the result"""
+    rng = ctx.rng
+    k = rng.randint(2, 4)
+    seqs1 = ["AAAGGGCCC", "GATTACAGA", "TTAGGCATC"]
+    seqs2 = ["TTTGGGAAC", "ACGTACGTAC", "CCTGAGTCA"]
+    flag = rng.choice(["-a", "-g"])
+    specs = []
+    for side, seqs in ((0, seqs1), (1, seqs2)):
+        pool = [rng.choice(seqs)] if rng.random() < 0.6 else seqs   # 60 %: every rank has the same sequence on this side
+        row = []
+        for i in range(k):
+            par = rng.choice(["", ";e=0", ";e=0.12", ";e=0.25", ";o=3", ";o=7", ";e=0;o=8", ";e=0.25;o=5"])
+            row.append(f"{'ab'[side]}{i}={rng.choice(pool)}{par}")
+        specs.append(row)
+    argv = ["--no-index"]
+    for sp in specs[0]:
+        argv += [flag, sp]
+    for sp in specs[1]:
+        argv += [flag.upper(), sp]
+    argv += ["--pair-adapters", "-y", " {name}", "-o", "{dir}/o1.fastq", "-p", "{dir}/o2.fastq"]
+    r1, r2 = pipe.gen_reads(rng, 6, [x.split("=")[1].split(";")[0] for x in specs[0]], [x.split("=")[1].split(";")[0] for x in specs[1]], True)
+    return dict(argv=argv, paired=True, reads1=r1, reads2=r2, with_qual=True, interleaved_in=False, ranks=k)
+
+
+def rank_oracle(ctx, case, real):
+    """both mates carry the name of the adapter of one and the same rank, or neither carries one and neither is changed"""
+    if "error" in real or "ranks" not in case:
+        return
+    o1 = {rid(r[0]): r for fn, side, recs in pipeprop.output_roles(case, real) if side == 0 for r in recs}
+    o2 = {rid(r[0]): r for fn, side, recs in pipeprop.output_roles(case, real) if side == 1 for r in recs}
+    for (n1, s1, _), (n2, s2, _) in zip(case["reads1"], case["reads2"]):
+        key = rid(n1)
+        if key not in o1 or key not in o2:
+            continue
+        t1, t2 = o1[key][0].rsplit(" ", 1)[-1], o2[key][0].rsplit(" ", 1)[-1]
+        k1 = int(t1[1:]) if t1[:1] == "a" and t1[1:].isdigit() else None
+        k2 = int(t2[1:]) if t2[:1] == "b" and t2[1:].isdigit() else None
+        ctx.count("pair-adapters-rank-checked")
+        if k1 is not None and k1 == k2:
+            ctx.nontriv(("rank", tuple(case["argv"]), key))
+        if k1 != k2:
+            ctx.failures.append(Failure("C05/pair-adapters-different-ranks", "--pair-adapters: the two mates were trimmed by adapters of different ranks "
+                                        "(or only one of them by any)", case_input(case), dict(pair=key, r1_adapter=t1, r2_adapter=t2), None))
+        elif k1 is None and (o1[key][1] != s1 or o2[key][1] != s2):
+            ctx.failures.append(Failure("C05/pair-adapters-one-mate-only", "--pair-adapters changed a pair without naming an adapter", case_input(case),
+                                        dict(pair=key), None))
+
+
 def oracle(ctx, case, res, real):
     if sync_oracle(ctx, case, res, real):
         pair_adapters_oracle(ctx, case, real)
+        rank_oracle(ctx, case, real)
 
 
 def run(ctx):
@@ -234,6 +285,7 @@ def run(ctx):
         r1, r2 = pipe.gen_reads(ctx.rng, 6, ["AAAGGGCCC", "GATTACAGA"], ["TTTGGGAAC", "ACGTACGTAC"], True)
         cs.append(dict(argv=["--no-index", "-a", "a0=AAAGGGCCC", "-a", "a1=GATTACAGA", "-A", "b0=TTTGGGAAC", "-A", "b1=ACGTACGTAC", "--pair-adapters",
                              "-o", "{dir}/o1.fastq", "-p", "{dir}/o2.fastq"], paired=True, reads1=r1, reads2=r2, with_qual=True, interleaved_in=False))
+    cs += [rank_case(ctx) for _ in range(ctx.scale(120, 2000))]
     for case, res, real, model in pipe.run_cases(ctx, cs):
         oracle(ctx, case, res, real)
 
